@@ -46,9 +46,13 @@ func runChild(d Driver) childOut {
 	out := childOut{Name: d.Name, Stats: st, Completed: "none(unbounded)"}
 	if !st.Exhaustive && len(st.Violations) == 0 && strings.Contains(st.Why, "budget") {
 		out.Completed = "nothing"
+		deadline := time.Now().Add(d.Cfg.Budget) // the bounds share one further budget
 		for _, b := range d.Fallback {
 			cfg := d.Cfg
 			cfg.PreemptBound = b
+			if cfg.Budget = time.Until(deadline); cfg.Budget <= 0 {
+				break
+			}
 			e2 := vrt.NewExplorer(cfg)
 			st2 := e2.Explore(d.Mk)
 			st.Executions += st2.Executions
